@@ -307,6 +307,7 @@ MANIFEST = {
             "sentinels exactly under the conditions stated, and set the phase-trace flags iff a "
             "root exists and the range end is not a true end; findMatching dispatches by the side "
             "of vJ; v-^2 = min(vw^2, cs-^2(T-)) with the sound speed at the returned T- (deflagration / "
-            "hybrid classification; harness shared with C02). T+=Tn, v+=vw for detonations are proven in C02.",
+            "hybrid classification; harness shared with C02). T+=Tn, v+=vw for detonations are proven in C02."
+            " A converged Chapman-Jouguet root is used wherever it lies relative to the tabulated low-T range (no silent fall back to the template vJ).",
     "note": "Ordering/causality facts that need EOS convexity are not decided (outside).",
 }
